@@ -8,7 +8,14 @@
          carriers silent, modulators untouched, monotone along one axis, lower brightness never
          brightens) - failures go to `fails`;
      (C) compares the recorded bytes with ModelTL (exact transcription) - mismatches go to `drift`.
-   A sweep record carries one entry per value of the swept control and is consumed point by point. *)
+   A sweep record carries one entry per value of the swept control and is consumed point by point.
+   Executions started with "kon" also record every KEY-ON of a chip channel ([2, chip channel, the four TL
+   registers in force, MIDI channel and key of the note it was keyed for, candidates]) and the sounding notes
+   after every call ("al"); time passes in "gen" calls.  Every key-on - NoteOn, the turn the automatic arpeggio
+   gives to a note that shares a chip channel, a re-trigger after a steal - is judged like a levelling: the
+   registers in force are taken as the levels of the OWNER (Level.tla part 3) and must satisfy the predicates
+   for the velocity of that note and the CC7 / CC11 / CC74 of its MIDI channel (zero => carriers silent,
+   modulators, range; monotone / brightness against the last observation of every note) and equal LevelsOf. *)
 EXTENDS Level, Json, IOUtils
 T == ndJsonDeserialize(IOEnv.TRACE)
 MaxFails == 12
@@ -23,7 +30,8 @@ CntNames == <<"steps", "execs", "sweeps", "points", "touches", "bytes",
               "refined", "drifted", "vm1", "vm2", "vm3", "vm4", "vm5",
               "alg0", "alg1", "alg2", "alg3", "alg4", "alg5", "alg6", "alg7",
               "smod", "frb", "perc", "soft", "breduced", "multi", "noplay",
-              "dmxvel_full", "dmxvol_full", "w9x_full", "sweeps128">>
+              "dmxvel_full", "dmxvol_full", "w9x_full", "sweeps128",
+              "gens", "kons", "kon_judged", "kon_skipped", "kon_shared", "kon_turns", "kon_zero", "kon_pairs", "kon_strict", "kon_drifted", "arp_execs">>
 NC == Len(CntNames)
 Cnt0 == [i \in 1..NC |-> 0] \o <<>>
 \* d: a record with some of the counter names
@@ -34,6 +42,7 @@ CntRecord(k) == [nm \in { CntNames[i] : i \in 1..NC } |-> k[CHOOSE i \in 1..NC :
 Chan0 == [vol |-> 100, expr |-> 127, b |-> 127, soft |-> FALSE, prog |-> 0]
 Cells0 == [dv |-> {}, dc |-> {}, w9 |-> {}]
 St0 == [vm |-> 1, smod |-> FALSE, frb |-> FALSE, mv |-> 127, chans |-> [c \in 1..32 |-> Chan0] \o <<>>, notes |-> <<>>,
+        kon |-> FALSE, held |-> <<>>, lev |-> [c \in 1..24 |-> <<-1, -1>>] \o <<>>,
         cur |-> [c \in 1..24 |-> <<>>] \o <<>>, mem |-> <<>>, banks |-> <<>>, cells |-> Cells0]
 
 Init == l = 1 /\ pi = 0 /\ st = St0 /\ fails = <<>> /\ cnt = Cnt0 /\ drift = <<>> /\ exec = 0
@@ -81,6 +90,31 @@ ApplyNotes(s, pc, w) ==
                      nn == [ch |-> pc.ch, k |-> pc.k, v |-> pc.v, ins |-> ins, c |-> c, soft |-> s.chans[pc.ch + 1].soft, perc |-> (pc.ch % 16 = 9)]
                  IN [s EXCEPT !.notes = Append(SelectSeq(rest, LAMBDA n : n.c # c), nn)]
     [] OTHER -> s
+(* Executions with recorded key-ons: `held` keeps every note from its NoteOn to its NoteOff with its own loudness
+   inputs (velocity as sent, instrument, soft pedal at NoteOn), whatever happens to its chip channel; the harness
+   tells who sounds where after the call (al = <<MIDI channel, key, chip channel>>...), which replaces the guess
+   "a new note on chip channel c ended the others" that is only right while no channel is shared. *)
+ApplyHeld(s, pc) ==
+  CASE pc.o = "off" -> IF pc.ch % 16 = 9 THEN s ELSE [s EXCEPT !.held = SelectSeq(@, LAMBDA n : ~(n.ch = pc.ch /\ n.k = pc.k))]
+    [] pc.o = "on" ->
+         LET rest == SelectSeq(s.held, LAMBDA n : ~(n.ch = pc.ch /\ n.k = pc.k))
+             ins == InsOf(s, pc.ch, pc.k)
+         IN IF pc.v = 0 THEN (IF pc.ch % 16 = 9 THEN s ELSE [s EXCEPT !.held = rest])
+            ELSE IF ins.i = -1 THEN [s EXCEPT !.held = rest]
+            ELSE [s EXCEPT !.held = Append(rest, [ch |-> pc.ch, k |-> pc.k, v |-> pc.v, ins |-> ins, c |-> -1,
+                                                  soft |-> s.chans[pc.ch + 1].soft, perc |-> (pc.ch % 16 = 9)])]
+    [] OTHER -> s
+HeldIdx(held, ch, k) == FirstIdx(held, LAMBDA n : n.ch = ch /\ n.k = k)
+\* (operator arguments are evaluated once; a LET-bound value is re-evaluated for every element of a constructor that uses it)
+AliveNotes2(held, known) == [i \in DOMAIN known |-> [held[known[i][1]] EXCEPT !.c = known[i][2]]] \o <<>>
+AliveNotes1(held, pairs) == AliveNotes2(held, SelectSeq(pairs, LAMBDA q : q[1] # 0))
+AliveNotes(held, al) == AliveNotes1(held, [i \in DOMAIN al |-> <<HeldIdx(held, al[i][1], al[i][2]), al[i][3]>>] \o <<>>)
+\* hasAl = FALSE: the record carries no list of sounding notes (sweep points)
+SyncNotes(s, hasAl, al) == IF ~s.kon \/ ~hasAl THEN s ELSE [s EXCEPT !.notes = AliveNotes(s.held, al)]
+Alone(notes, n) == \A j \in DOMAIN notes : notes[j].c = n.c => (notes[j].ch = n.ch /\ notes[j].k = n.k)
+\* a controller change re-levels every note of the channel; only a note that has its chip channel for itself is read back from it
+Unshared(notes, tn) == SelectSeq(tn, LAMBDA n : Alone(notes, n))
+
 \* the notes a call has to re-level
 Touched(s, pc) ==
   CASE pc.o = "on" -> IF pc.v = 0 THEN <<>> ELSE SelectSeq(s.notes, LAMBDA n : n.ch = pc.ch /\ n.k = pc.k)
@@ -121,45 +155,118 @@ Flags(e) ==
         B2I(o.vm \in {0, 1}), B2I(o.vm = 2), B2I(o.vm = 3), B2I(o.vm = 4), B2I(o.vm = 5),
         B2I(o.alg = 0), B2I(o.alg = 1), B2I(o.alg = 2), B2I(o.alg = 3), B2I(o.alg = 4), B2I(o.alg = 5), B2I(o.alg = 6), B2I(o.alg = 7),
         B2I(o.smod), B2I(o.frb), B2I(o.perc), B2I(o.soft), B2I(BrightReduced(o)), 0, 0,
-        0, 0, 0, 0 >>
+        0, 0, 0, 0,
+        0, 0, 0, 0, 0, 0, 0, 0, 0, 0, 0 >>
 RECURSIVE SumFlags(_, _, _)
+RECURSIVE SumSeqN(_, _, _)
+SumSeqN(t, i, a) == IF i > Len(t) THEN a ELSE SumSeqN(t, i + 1, a + t[i])
 SumFlags(evs, i, accu) == IF i > Len(evs) THEN accu ELSE SumFlags(evs, i + 1, AddTup(accu, Flags(evs[i])))
+
+---------------------------------------------------------------------------
+(* Key-ons.  e = <<2, chip channel, tl40, tl44, tl48, tl4C, MIDI channel, key, candidates>>.  The owner's loudness
+   inputs come from this specification's own record (held + the controls in force), never from the library. *)
+KonOps(w) == SelectSeq(w, LAMBDA e : e[1] = 2)
+PairsOf(mem, o) == UNION { Pair(mem[i], o) : i \in DOMAIN mem }
+KonJudge(mem, o, c) ==
+  LET bad == Single(o) \cup PairsOf(mem, o)
+      qi == IF bad \cap {"monotone", "brightness"} = {} THEN 0 ELSE FirstIdx(mem, LAMBDA q : Pair(q, o) # {})
+  IN [ok |-> TRUE, o |-> o, c |-> c, bad |-> bad, p |-> IF qi = 0 THEN <<>> ELSE Brief(mem[qi]), model |-> ModelTL(o),
+      np |-> Cardinality({ i \in DOMAIN mem : MonoApplies(mem[i], o) }),
+      ns |-> Cardinality({ i \in DOMAIN mem : MonoApplies(mem[i], o) /\ \E j \in Carriers[o.alg + 1] : o.tl[j] # mem[i].tl[j] })]
+KonEval(s, mem, e) ==
+  LET hi == IF e[9] = 1 THEN HeldIdx(s.held, e[7], e[8]) ELSE 0
+  IN IF hi = 0 THEN [ok |-> FALSE, c |-> e[2]] ELSE KonJudge(mem, Obs(s, s.held[hi], <<e[3], e[4], e[5], e[6]>>), e[2])
+\* hand-overs: consecutive key-ons of one chip channel for different notes
+TurnsIn(q) == Cardinality({ i \in 2..Len(q) : <<q[i][7], q[i][8]>> # <<q[i - 1][7], q[i - 1][8]>> })
+TurnsOn(K, c) == TurnsIn(SelectSeq(K, LAMBDA e : e[2] = c))
+RECURSIVE SumTurns(_, _)
+SumTurns(K, cs) == IF cs = {} THEN 0 ELSE LET c == CHOOSE x \in cs : TRUE IN TurnsOn(K, c) + SumTurns(K, cs \ {c})
+SharedKons(K, notes) == Cardinality({ i \in DOMAIN K : Cardinality({ j \in DOMAIN notes : notes[j].c = K[i][2] }) > 1 })
+(* The key-ons of one call: the controls do not change inside a call, so equal entries are judged once.
+   Returns the failures, the drifts, the counters and the observations to remember (one per owner). *)
+KonPhase4(notes, K, KS, ev, okI, name, ln, ex) ==
+  LET F == UNION { { [p |-> "C11", w |-> lab, l |-> ln, x |-> ex, e |-> name,
+                      d |-> ToString(<<"key-on of chip channel", ev[i].c, "for note", <<ev[i].o.ch, ev[i].o.k>>, "levels in force", Brief(ev[i].o), "old", ev[i].p>>)]
+                      : lab \in ev[i].bad } : i \in okI }
+      D == { [l |-> ln, x |-> ex, e |-> name, d |-> ToString(<<"key-on of chip channel", ev[i].c, "model", ev[i].model, "obs", Brief(ev[i].o), "note", <<ev[i].o.ch, ev[i].o.k>>>>)]
+               : i \in { j \in okI : ev[j].model # ev[j].o.tl } }
+      keep == { i \in okI : \A j \in okI : (j < i) => <<ev[j].o.ch, ev[j].o.k>> # <<ev[i].o.ch, ev[i].o.k>> }
+      nj == Cardinality({ i \in DOMAIN K : \E j \in okI : KS[j] = K[i] })
+  IN [F |-> F, D |-> D, owners |-> { <<ev[i].o.ch, ev[i].o.k>> : i \in okI }, obs |-> SeqOfSet({ ev[i].o : i \in keep }),
+      k |-> [kons |-> Len(K), kon_judged |-> nj, kon_skipped |-> Len(K) - nj, kon_shared |-> SharedKons(K, notes),
+             kon_turns |-> SumTurns(K, { K[i][2] : i \in DOMAIN K }),
+             kon_zero |-> Cardinality({ i \in okI : ZeroApplies(ev[i].o) }),
+             kon_pairs |-> SumSeqN([i \in DOMAIN ev |-> IF ev[i].ok THEN ev[i].np ELSE 0] \o <<>>, 1, 0),
+             kon_strict |-> SumSeqN([i \in DOMAIN ev |-> IF ev[i].ok THEN ev[i].ns ELSE 0] \o <<>>, 1, 0),
+             kon_drifted |-> Cardinality({ j \in okI : ev[j].model # ev[j].o.tl })]]
+KonPhase3(notes, K, KS, ev, name, ln, ex) == KonPhase4(notes, K, KS, ev, { i \in DOMAIN ev : ev[i].ok }, name, ln, ex)
+KonPhase2(s, mem, K, KS, name, ln, ex) == KonPhase3(s.notes, K, KS, [i \in DOMAIN KS |-> KonEval(s, mem, KS[i])] \o <<>>, name, ln, ex)
+KonPhase(s, mem, K, name, ln, ex) == KonPhase2(s, mem, K, SeqOfSet({ K[i] : i \in DOMAIN K }), name, ln, ex)
+(* Whom the registers of a chip channel were levelled for last (OpnChannel::levelled_for, Level.tla part 3 `lev`): the owner
+   of the channel's last key-on in the call, else the last note of the call's re-levelling that sounds on it. *)
+OwnerOf(e) == <<e[7], e[8]>>
+MaxOf(S) == CHOOSE x \in S : \A y \in S : y <= x
+LevOn(lev, tn0, K, c) ==
+  LET ks == { i \in DOMAIN K : K[i][2] = c }
+      ts == { i \in DOMAIN tn0 : tn0[i].c = c }
+  IN IF ks # {} THEN OwnerOf(K[MaxOf(ks)]) ELSE IF ts # {} THEN <<tn0[MaxOf(ts)].ch, tn0[MaxOf(ts)].k>> ELSE lev[c + 1]
+LevNext(lev, tn0, K) == IF tn0 = <<>> /\ K = <<>> THEN lev ELSE [c \in 1..24 |-> LevOn(lev, tn0, K, c - 1)] \o <<>>
+\* the note the registers of K[i]'s chip channel are levelled for just before that key-on
+LevBefore(lev, K, i) == LET js == { j \in 1..(i - 1) : K[j][2] = K[i][2] } IN IF js = {} THEN lev[K[i][2] + 1] ELSE OwnerOf(K[MaxOf(js)])
+\* a re-pitch (mask Upd_Pitch alone) re-levels exactly the key-ons that find the registers levelled for another note (ChanRepitch)
+TakeOvers(lev, K) == Cardinality({ i \in DOMAIN K : LevBefore(lev, K, i) # OwnerOf(K[i]) })
+\* what to remember: the observations of this call replace the older ones of the same notes
+MemNext(mem, tn, owners, newobs, kobs) ==
+  SelectSeq(mem, LAMBDA q : ~(\E i \in DOMAIN tn : tn[i].ch = q.ch /\ tn[i].k = q.k) /\ <<q.ch, q.k>> \notin owners)
+  \o newobs \o SelectSeq(kobs, LAMBDA o : ~\E i \in DOMAIN tn : tn[i].ch = o.ch /\ tn[i].k = o.k)
+NoKons == [F |-> {}, D |-> {}, owners |-> {}, obs |-> <<>>, k |-> [kons |-> 0]]
 
 (* One primitive call (pc) with its return value r and its recorded chip writes w.
    acc = [s, f, d, k]: state, failures, drifts, counters.  name = event name for the reports. *)
-Prim(acc, pc, r, w, name) ==
-  LET s1 == ApplyNotes(ApplyCtl(acc.s, pc), pc, w)
+Prim(acc, pc, r, w, name, hasAl, al) ==
+  LET s0 == ApplyCtl(acc.s, pc)
+      s1 == SyncNotes(ApplyNotes(IF s0.kon THEN ApplyHeld(s0, pc) ELSE s0, pc, w), hasAl, al)
       s2 == [s1 EXCEPT !.cur = ApplyWrites(@, w)]
-      tn == Touched(s2, pc)
+      tn0 == Touched(s2, pc)
+      \* under congestion only a note that has its chip channel for itself can be read back after a controller change
+      tn == IF s2.kon /\ pc.o # "on" THEN Unshared(s2.notes, tn0) ELSE tn0
       evs == [i \in DOMAIN tn |-> NoteEval(s2, tn[i])] \o <<>>
       tls == TlOps(w)
+      K == IF s2.kon THEN KonOps(w) ELSE <<>>
+      kp == IF K = <<>> THEN NoKons ELSE KonPhase(s2, s2.mem, K, name, l, exec)
       \* (B) property failures
       rangebad == { i \in DOMAIN tls : RangeBad(SubSeq(tls[i], 3, 6)) # {} }
       F == { [p |-> "C11", w |-> "range", l |-> l, x |-> exec, e |-> name, d |-> ToString(<<"write", tls[i]>>)] : i \in rangebad }
            \cup UNION { { [p |-> "C11", w |-> lab, l |-> l, x |-> exec, e |-> name,
                           d |-> ToString(<<"new", Brief(evs[i].o), "old", IF evs[i].hasp THEN Brief(evs[i].p) ELSE <<>>>>)]
                           : lab \in evs[i].bad \ {"range"} } : i \in DOMAIN evs }
+           \cup kp.F
       \* (C) refinement
       created == pc.o = "on" /\ tn # <<>>
+      \* expected TL updates: one per note the call re-levels (+ the patch upload of a new note); while time passes, one per
+      \* key-on (every turn of the arpeggio re-levels the note it keys: ChanTick of Level.tla); a pitch bend keys every note of
+      \* the MIDI channel and re-levels those whose chip channel was levelled for another note (ChanRepitch, /repo 5cd89c0)
+      wantTl == IF pc.o = "gen" THEN Len(K) ELSE IF pc.o = "bend" THEN TakeOvers(s2.lev, K) ELSE Len(tn0) + B2I(created)
       D == { [l |-> l, x |-> exec, e |-> name, d |-> ToString(<<"model", evs[i].model, "obs", Brief(evs[i].o)>>)]
                : i \in { j \in DOMAIN evs : evs[j].model # evs[j].o.tl } }
-           \cup (IF Len(tls) # Len(tn) + B2I(created)
-                 THEN { [l |-> l, x |-> exec, e |-> name, d |-> ToString(<<"expected TL updates", Len(tn) + B2I(created), "writes", w>>)] } ELSE {})
+           \cup (IF Len(tls) # wantTl
+                 THEN { [l |-> l, x |-> exec, e |-> name, d |-> ToString(<<"expected TL updates", wantTl, "writes", SubSeq(w, 1, Min(Len(w), 12))>>)] } ELSE {})
            \cup (IF created /\ tls # <<>> /\ SubSeq(tls[1], 3, 6) # tn[1].ins.tl
                  THEN { [l |-> l, x |-> exec, e |-> name, d |-> ToString(<<"patch upload TL", tls[1], "instrument", tn[1].ins.tl>>)] } ELSE {})
            \cup (IF pc.o = "on" /\ pc.v > 0 /\ tn = <<>>
                  THEN { [l |-> l, x |-> exec, e |-> name, d |-> ToString(<<"note not played, r", r>>)] } ELSE {})
+           \cup kp.D
       newobs == [i \in DOMAIN evs |-> evs[i].o] \o <<>>
-      mem1 == SelectSeq(s2.mem, LAMBDA q : ~\E i \in DOMAIN tn : tn[i].ch = q.ch /\ tn[i].k = q.k) \o newobs
+      mem1 == MemNext(s2.mem, tn, kp.owners, newobs, kp.obs)
       cells1 == [dv |-> s2.cells.dv \cup { DmxVelCell(evs[i].o) : i \in { j \in DOMAIN evs : evs[j].o.vm = 3 } },
                  dc |-> s2.cells.dc \cup { DmxVolCell(evs[i].o) : i \in { j \in DOMAIN evs : evs[j].o.vm = 3 } },
                  w9 |-> s2.cells.w9 \cup { W9xCell(evs[i].o) : i \in { j \in DOMAIN evs : evs[j].o.vm = 5 } }]
       delta == SumFlags(evs, 1, [TupleZero EXCEPT ![5] = Len(evs), ![6] = 4 * Len(tls), ![19] = Len(evs), ![39] = B2I(Len(evs) > 1),
                                                     ![40] = B2I(pc.o = "on" /\ pc.v > 0 /\ tn = <<>>)])
-  IN [s |-> [s2 EXCEPT !.mem = mem1, !.cells = cells1],
+  IN [s |-> IF s2.kon THEN [s2 EXCEPT !.mem = mem1, !.cells = cells1, !.lev = LevNext(s2.lev, tn0, K)] ELSE [s2 EXCEPT !.mem = mem1, !.cells = cells1],
       f |-> IF Len(acc.f) >= MaxFails \/ F = {} THEN acc.f ELSE acc.f \o SeqOfSet(F),
       d |-> IF Len(acc.d) >= MaxDrift \/ D = {} THEN acc.d ELSE acc.d \o SeqOfSet(D),
-      k |-> AddTup(acc.k, delta)]
+      k |-> IF K = <<>> THEN AddTup(acc.k, delta) ELSE AddCnt(AddTup(acc.k, delta), kp.k)]
 
 \* a sweep: one primitive call per recorded point
 SweepCall(ev, x) ==
@@ -169,16 +276,17 @@ SweepCall(ev, x) ==
     [] ev.ax = "bright" -> [o |-> "cc", ch |-> ev.ch, n |-> 74, v |-> x]
     [] ev.ax = "mv"     -> [o |-> "mv", v |-> x]
 StepInit(ev) ==
-  LET s0 == [St0 EXCEPT !.vm = ev.vm, !.smod = (ev.smod # 0), !.frb = (ev.frb # 0), !.banks = ev.banks]
+  LET s0 == [St0 EXCEPT !.vm = ev.vm, !.smod = (ev.smod # 0), !.frb = (ev.frb # 0), !.banks = ev.banks,
+                        !.kon = ("kon" \in DOMAIN ev /\ ev.kon # 0)]
       want == IF ev.vm = 0 THEN 1 ELSE ev.vm
   IN /\ st' = s0 /\ exec' = exec + 1 /\ fails' = fails
      /\ drift' = IF ev.vmr # want /\ Len(drift) < MaxDrift THEN Append(drift, [l |-> l, x |-> exec + 1, e |-> "init", d |-> "volume model read back differs"]) ELSE drift
-     /\ cnt' = AddCnt(cnt, [execs |-> 1])
+     /\ cnt' = AddCnt(cnt, [execs |-> 1, arp_execs |-> B2I("arp" \in DOMAIN ev /\ ev.arp # 0)])
 StepOp(ev) ==
   LET acc0 == [s |-> st, f |-> fails, d |-> drift, k |-> cnt]
-      acc1 == Prim(acc0, ev, ev.r, ev.w, ev.o)
+      acc1 == Prim(acc0, ev, ev.r, ev.w, ev.o, "al" \in DOMAIN ev, IF "al" \in DOMAIN ev THEN ev.al ELSE <<>>)
   IN /\ st' = acc1.s /\ fails' = acc1.f /\ drift' = acc1.d /\ exec' = exec
-     /\ cnt' = AddCnt(acc1.k, [steps |-> 1])
+     /\ cnt' = AddCnt(acc1.k, [steps |-> 1, gens |-> B2I(ev.o = "gen")])
 (* A sweep record is consumed one point per step (pi = number of points already consumed): a recursive
    fold over 128 points would make TLC's evaluation context 128 levels deep and every name lookup slow. *)
 StepPoint(ev) ==
@@ -186,7 +294,7 @@ StepPoint(ev) ==
       first == pi = 0
       acc0 == [s |-> IF first THEN [st EXCEPT !.cells = Cells0] ELSE st, f |-> fails, d |-> drift, k |-> cnt]
       pt == ev.pts[pi + 1]
-      acc1 == IF np = 0 THEN acc0 ELSE Prim(acc0, SweepCall(ev, pt[1]), pt[2], pt[3], "sweep-" \o ev.ax)
+      acc1 == IF np = 0 THEN acc0 ELSE Prim(acc0, SweepCall(ev, pt[1]), pt[2], pt[3], "sweep-" \o ev.ax, FALSE, <<>>)
       last == pi + 1 >= np
       cl == acc1.s.cells
   IN /\ st' = acc1.s /\ fails' = acc1.f /\ drift' = acc1.d /\ exec' = exec
